@@ -113,8 +113,10 @@ impl serde::Serialize for Value {
             Value::DateTime(dt) => serializer.serialize_str(dt.to_rfc3339().as_str()),
             Value::Duration(d) => serializer.serialize_str(d.to_string().as_str()),
             Value::Obj(map) => {
+                // Keys are written in sorted order: the map's own iteration order differs
+                // from map to map and from run to run.
                 let mut m = serializer.serialize_map(Some(map.len()))?;
-                for (k, v) in map {
+                for (k, v) in map.iter().sorted_by(|l, r| l.0.cmp(r.0)) {
                     m.serialize_entry(k, v)?;
                 }
                 m.end()
